@@ -26,6 +26,8 @@ type Machine struct {
 	// Notes collects rule-relevant observations made during interpretation
 	// (e.g. a type rendered without the file's qualifier).
 	Notes []Note
+	// Indexed records the index and slice expressions evaluated in range on a list.
+	Indexed map[token.Pos]bool
 	// Distinct, when set, says that a token is known to differ from a literal (e.g. an identifier
 	// token differs from "." whatever identifier it stands for).
 	Distinct func(tok, lit string) bool
@@ -183,6 +185,35 @@ func (m *Machine) Call(pos token.Pos, fn Value, args []Value) (Value, error) {
 // CallFunc calls a declared function or method.
 func (m *Machine) CallFunc(pos token.Pos, fn *types.Func, recv Value, args []Value) (Value, error) {
 	fn = fn.Origin()
+	// the iterators of go/types lists are their Len/At pairs (that is how go/types defines them)
+	if pair, ok := typesIterators[fn.Name()]; ok && fn.Pkg() != nil && fn.Pkg().Path() == "go/types" && len(args) == 0 {
+		if _, hasOwn := m.Ext[fn.FullName()]; !hasOwn {
+			switch o := recv.(type) {
+			case NilV:
+				return &Seq{}, nil
+			case *Opaque:
+				if _, own := o.Methods[fn.Name()]; !own {
+					n, err := m.opaqueCall(pos, o, pair[0], nil)
+					if err != nil {
+						return nil, err
+					}
+					cnt, ok := n.(int64)
+					if !ok {
+						return nil, undecided(pos, "%s of a %s whose %s is not concrete", fn.Name(), o.Kind, pair[0])
+					}
+					sq := &Seq{}
+					for i := int64(0); i < cnt; i++ {
+						e, err := m.opaqueCall(pos, o, pair[1], []Value{i})
+						if err != nil {
+							return nil, err
+						}
+						sq.Elems = append(sq.Elems, e)
+					}
+					return sq, nil
+				}
+			}
+		}
+	}
 	if o, ok := recv.(*Opaque); ok {
 		// methods of opaque (non-moq) values are modelled per kind, whatever
 		// embedded struct declares them (go/types promotes object's methods)
@@ -1175,6 +1206,9 @@ func (m *Machine) eval(fr *frame, e ast.Expr) (Value, error) {
 				m.Notes = append(m.Notes, Note{Rule: "H-PANIC", Key: fmt.Sprintf("index-out-of-range@%s", m.Prog.Pos(e.Pos())), Pos: e.Pos(), Msg: fmt.Sprintf("index %d out of range [0,%d) while expanding a template helper", n, len(x.Elems))})
 				return nil, undecided(e.Pos(), "index out of range")
 			}
+			if m.Indexed != nil {
+				m.Indexed[e.Pos()] = true
+			}
 			return x.Elems[n], nil
 		case *MapV:
 			for j, k := range x.Keys {
@@ -1281,6 +1315,9 @@ func (m *Machine) eval(fr *frame, e ast.Expr) (Value, error) {
 			}
 			if !ok1 || !ok2 || lo < 0 || hi < lo || int(hi) > len(x.Elems) {
 				return nil, undecided(e.Pos(), "slice bounds unknown or out of range")
+			}
+			if m.Indexed != nil {
+				m.Indexed[e.Pos()] = true
 			}
 			return &List{Elems: x.Elems[lo:hi]}, nil
 		case *Unknown:
@@ -1428,8 +1465,17 @@ func (m *Machine) equal(pos token.Pos, a, b Value) Value {
 		switch b.(type) {
 		case NilV:
 			return true
-		case *Ptr, *List, *Opaque, *Closure, *FuncV, *MapV:
+		case *Ptr, *List, *Opaque, *Closure, *FuncV, *MapV, *Ref:
 			return false
+		}
+	case *Ref:
+		switch b := b.(type) {
+		case NilV:
+			return false // the address of a variable or field
+		case *Ref:
+			if a == b {
+				return true
+			}
 		}
 	case *Ptr:
 		switch b := b.(type) {
@@ -1807,6 +1853,18 @@ func (m *Machine) builtin(fr *frame, e *ast.CallExpr, name string) (Value, error
 		case *Unknown:
 			return x, nil
 		}
+	case "new":
+		// a pointer to a fresh zero value: a struct pointer, or a cell for plain values
+		z := m.zero(info.TypeOf(e.Args[0]))
+		switch s := z.(type) {
+		case *Struct:
+			return &Ptr{Elem: s}, nil
+		case *Opaque:
+			return s, nil
+		}
+		cell := z
+		m.seq++
+		return &Ref{ID: fmt.Sprintf("new%d", m.seq), Get: func() Value { return cell }, Set: func(v Value) { cell = v }}, nil
 	case "make":
 		t := info.TypeOf(e.Args[0])
 		switch u := t.Underlying().(type) {
@@ -1947,4 +2005,25 @@ func (m *Machine) goTypeOf(dyn string) types.Type {
 		return types.NewPointer(tn.Type())
 	}
 	return tn.Type()
+}
+
+// typesIterators: go/types iterator method -> the length and element accessors it is defined by.
+var typesIterators = map[string][2]string{
+	"Types": {"Len", "At"}, "Variables": {"Len", "At"}, "TypeParams": {"Len", "At"}, "Terms": {"Len", "Term"},
+	"Fields": {"NumFields", "Field"}, "Methods": {"NumMethods", "Method"},
+	"ExplicitMethods": {"NumExplicitMethods", "ExplicitMethod"}, "EmbeddedTypes": {"NumEmbeddeds", "EmbeddedType"},
+}
+
+// opaqueCall calls a modelled method of an opaque value by name.
+func (m *Machine) opaqueCall(pos token.Pos, o *Opaque, name string, args []Value) (Value, error) {
+	if f, ok := o.Methods[name]; ok {
+		return f(m, pos, args)
+	}
+	if ext, ok := m.Ext[OpaqueMethodKey(o.Kind, name)]; ok {
+		return ext(m, pos, o, args)
+	}
+	if ext, ok := m.Ext["("+o.GoType+")."+name]; ok && o.GoType != "" {
+		return ext(m, pos, o, args)
+	}
+	return nil, undecided(pos, "method %s of a %s value has no model", name, o.Kind)
 }
